@@ -56,8 +56,8 @@ func layoutClass(ds *model.Dataset) string {
 // compare checks the dump of the reopened file against the model and records
 // violations. Only what the property statements demand is checked.
 func (e *Exec) compare(d *Dump) {
-	if d.Panic != "" {
-		e.violate("panic", "reader:"+ErrClass(d.Panic), "reader panicked: "+d.Panic)
+	if ps := d.Panics(); len(ps) > 0 {
+		e.violate("panic", "reader:"+ErrClass(ps[0]), "reader panicked: "+ps[0])
 		return
 	}
 	if d.OpenErr != "" {
